@@ -73,7 +73,10 @@ def opExec (j : Lean.Json) : Lean.Json :=
     let results := (objPairs ((field j "results").getD Lean.Json.null)).map fun (k, v) =>
       (k, ({ retCode := getInt v "ret_code", result := getStr v "result" } : CallServiceResult))
     let fuel := defaultFuel script prev cur
-    let (res, c) := runExec driverEnv fuel script prev cur params results
+    -- serde's error text for results that are not JSON is supplied by the harness (`parse_errs`: text ↦ message)
+    let errs : List (String × String) := (objPairs ((field j "parse_errs").getD Lean.Json.null)).map fun (k, v) => (k, jStr v)
+    let env : Env := { driverEnv with parseErr := fun s => (lookup errs s).getD "" }
+    let (res, c) := runExec env fuel script prev cur params results
     let common : List (String × Lean.Json) :=
       [("trace", traceToJson c.th.keeper.resultTrace),
        ("next", toJson c.nextPeerPks),
